@@ -182,6 +182,14 @@ class Ctx:
         e = z3.simplify(lift(e))
         if z3.is_true(e):
             return True
+        if self.full is not None:
+            # the quantifier-free projection holds fewer hypotheses: what it entails is entailed (and it answers fast)
+            self.feas.push()
+            self.feas.add(_linearize(z3.Not(e)))
+            r0 = self.feas.check()
+            self.feas.pop()
+            if r0 == z3.unsat:
+                return True
         sol = self.full if self.full is not None else self.feas
         sol.push()
         sol.add(_linearize(z3.Not(e)))
@@ -599,6 +607,10 @@ def _eq(a, b):
 
 
 _EPOCH = [0]     # bumped on every in-place array update: memoised element terms of (dynamic) views are then recomputed
+_ASOF = [None]   # while the element closure of a DERIVED array is evaluated: the epoch at which that array was computed.  numpy computes
+                 # a derived array (x[1:] * 2, x.copy(), mask.sum(axis=1) ...) when the expression is executed; the engine's closures are
+                 # lazy, so a read that reaches another array (directly or through a view) must see that array AS IT WAS at that epoch,
+                 # not as later in-place updates have left it.
 
 
 def _memo(f):
@@ -613,7 +625,7 @@ def _memo(f):
             cache.clear()
             ep[0] = _EPOCH[0]
         ix = tuple(i if z3.is_expr(i) else lift(i) for i in ix)
-        key = tuple(i.get_id() for i in ix)
+        key = (_ASOF[0],) + tuple(i.get_id() for i in ix)
         hit = cache.get(key)
         if hit is None:
             r = f(*ix)
@@ -622,6 +634,47 @@ def _memo(f):
         return hit[0]
     g._is_memo = True
     return g
+
+
+def _asof_wrap(f, T):
+    """evaluate f with every array it reaches read as of epoch T"""
+    if f is None or getattr(f, '_asof', None) is not None:
+        return f
+    m = _memo(f)
+
+    def g(*ix):
+        old = _ASOF[0]
+        _ASOF[0] = T
+        try:
+            return m(*ix)
+        finally:
+            _ASOF[0] = old
+    g._is_memo = True
+    g._asof = T
+    return g
+
+
+def _now():
+    """the epoch a value computed right now belongs to: the current one, or - while an older lazy closure is being evaluated - that closure's"""
+    return _EPOCH[0] if _ASOF[0] is None else _ASOF[0]
+
+
+def _version(hist):
+    a = _ASOF[0]
+    if a is None or hist[-1][0] <= a:
+        return hist[-1][1]
+    for ep, v in reversed(hist):
+        if ep <= a:
+            return v
+    return hist[0][1]
+
+
+def _install(hist, v):
+    ep = _EPOCH[0]
+    if hist and hist[-1][0] == ep:
+        hist[-1] = (ep, v)
+    else:
+        hist.append((ep, v))
 
 
 class SArr:
@@ -635,15 +688,33 @@ class SArr:
 
     def __init__(self, shape, elem, kind, nan=None, member=None, buf=None, view_of=None, incr=False):
         self.shape_e = tuple(z3.simplify(lift(s)) for s in shape)
-        self.elem = _memo(elem)
+        self.view_of = view_of
+        self._he, self._hn = [], []      # contents by epoch (see _ASOF)
+        self.elem = elem
         self.kind = kind
-        self.nan = _memo(nan) if nan is not None else None
+        self.nan = nan
         self.member = member
         self.buf = buf if buf is not None else next(_buf_ids)
-        self.view_of = view_of
         self.incr = incr            # known strictly increasing (1-d int)
         self.sumfun = None          # optional ghost prefix-sum function (see npshim.sum)
         self.off = None             # for slice views: per-dim offsets into the base array (quantify in base coordinates)
+
+    # -- contents: a view reads through its base dynamically; any other array holds what it held when it was computed / last stored to
+    @property
+    def elem(self):
+        return _version(self._he)
+
+    @elem.setter
+    def elem(self, f):
+        _install(self._he, _memo(f) if self.view_of is not None else _asof_wrap(f, _now()))
+
+    @property
+    def nan(self):
+        return _version(self._hn)
+
+    @nan.setter
+    def nan(self, f):
+        _install(self._hn, None if f is None else (_memo(f) if self.view_of is not None else _asof_wrap(f, _now())))
 
     # -- basic attributes
     @property
@@ -889,9 +960,21 @@ class SArr:
     def __ge__(self, o): return self._half(self._ew(o, lambda a, b: a >= b, 'b', nanprop=False)._cmpnan(self, o), 'ge', o)
     def __le__(self, o): return self._half(self._ew(o, lambda a, b: a <= b, 'b', nanprop=False)._cmpnan(self, o), 'le', o)
 
+    def _cmp_inf(self, o, result):
+        """integer array compared with +-inf: exact (an integer is never infinite); the all-True mask is remembered so that
+        boolean indexing with it is the identity"""
+        if isinstance(o, float) and o in (float('inf'), float('-inf')) and self.kind == 'i':
+            r = SArr(self.shape_e, lambda *ix: z3.BoolVal(result), 'b')
+            r.alltrue = result
+            return r
+        return None
+
     def __eq__(self, o):
         if o is None:
             return False
+        r = self._cmp_inf(o, False)
+        if r is not None:
+            return r
         if self.kind == 'b' or (isinstance(o, SArr) and o.kind == 'b') or isinstance(o, (bool, SBool)):
             return self._ew(o, lambda a, b: _beq(a, b), 'b', nanprop=False)
         return self._ew(o, lambda a, b: a == b, 'b', nanprop=False)._cmpnan(self, o)
@@ -899,6 +982,9 @@ class SArr:
     def __ne__(self, o):
         if o is None:
             return True
+        r = self._cmp_inf(o, True)
+        if r is not None:
+            return r
         r = self._ew(o, lambda a, b: a != b, 'b', nanprop=False)
         # nan != x is True
         nans = [x.nan for x in (self, o) if isinstance(x, SArr) and x.nan is not None]
@@ -1026,6 +1112,11 @@ class SArr:
                 plan.append(('fancy', _ns.array(list(k))))
                 src += 1
                 continue
+            if isinstance(k, SymList):
+                from . import npshim as _ns
+                plan.append(('fancy', _ns.array(k)))
+                src += 1
+                continue
             ke = lift(k)
             if ke.sort() != I:
                 raise Unsupported('non-integer index')
@@ -1095,6 +1186,10 @@ class SArr:
 
     def _adv_get(self, plan):
         from . import npshim
+        if len(plan) == 1 and plan[0][0] == 'mask' and plan[0][1].ndim == 1 and self.ndim == 1 and getattr(plan[0][1], 'alltrue', None) is True:
+            if not Ctx.spec and not _eq(plan[0][1].shape_e[0], self.shape_e[0]):
+                C().oblige('mask-shape-agrees', plan[0][1].shape_e[0] == self.shape_e[0], 'safety')
+            return self.copy()          # indexing with an all-True mask: a copy of the array
         if len(plan) == 1 and plan[0][0] == 'mask' and plan[0][1].ndim == 1 and self.ndim == 1:
             idx = npshim.where(plan[0][1])[0]
             return self._gather1(idx)
@@ -1150,8 +1245,10 @@ class SArr:
 
         def nrm(v):
             return v if nonneg else z3.If(v < 0, v + n, v)
-        return SArr((idx.shape_e[0],) + self.shape_e[1:], lambda i, *rest: base(nrm(idx.elem(i)), *rest), self.kind,
-                    nan=(None if basenan is None else (lambda i, *rest: basenan(nrm(idx.elem(i)), *rest))))
+        r = SArr((idx.shape_e[0],) + self.shape_e[1:], lambda i, *rest: base(nrm(idx.elem(i)), *rest), self.kind,
+                 nan=(None if basenan is None else (lambda i, *rest: basenan(nrm(idx.elem(i)), *rest))))
+        r.row_idx = idx            # rows gathered through this index array (SymSet.extend states membership per selected row)
+        return r
 
     def __setitem__(self, key, val):
         self._write_check()
@@ -1225,6 +1322,25 @@ class SArr:
                     C().assume(z3.ForAll([q], z3.Implies(z3.And(0 <= q, q < idx.shape_e[0]), inv(idx.elem(q)) == q), patterns=[idx.elem(q)]))
                     vfun = lambda ix: conv(val.elem(inv(ix[0])))
                     vnanf = (lambda ix: val.nan(inv(ix[0]))) if val.nan is not None else None
+                elif p[0] == 'fancy' and val.ndim == 1 and len(plan) == 1 and val.nan is None and not Ctx.spec:
+                    # out[inds] = vals  with an arbitrary index list (repeats allowed): position r is written iff r occurs in inds, and it
+                    # then holds vals[q] for SOME q with inds[q] == r  (numpy: the last such q - an over-approximation, sound for proofs)
+                    c = C()
+                    if not _eq(val.shape_e[0], idx.shape_e[0]):
+                        c.oblige('assign-shapes-agree', val.shape_e[0] == idx.shape_e[0], 'safety')
+                    HAS = c.fresh_fun('sthas', I, B)
+                    JL = c.fresh_fun('stq', I, I)
+                    q = z3.Int('sq%d' % next(_buf_ids))
+                    r_ = z3.Int('sr%d' % next(_buf_ids))
+                    nonneg = getattr(idx, 'nonneg', False)
+                    nrm = (lambda v: v) if nonneg else (lambda v: z3.If(v < 0, v + nn, v))
+                    tq = idx.elem(q)
+                    c.assume(z3.ForAll([q], z3.Implies(z3.And(0 <= q, q < idx.shape_e[0]), HAS(nrm(tq))), patterns=[tq] if _pat_ok_core(tq, [q]) else []))
+                    c.assume(z3.ForAll([r_], z3.Implies(HAS(r_), z3.And(0 <= JL(r_), JL(r_) < idx.shape_e[0], nrm(idx.elem(JL(r_))) == r_)), patterns=[HAS(r_)]))
+                    cond = lambda ix: HAS(ix[pos])
+                    velem_, _vn = self._rhs_before_store(val)
+                    vfun = lambda ix: conv(velem_(JL(ix[0])))
+                    vnanf = None
                 else:
                     raise Unsupported('array value in advanced assignment')
             elif isinstance(val, SNan):
@@ -1436,6 +1552,12 @@ class SArr:
         from . import npshim
         return npshim.reshape(self, shape[0] if len(shape) == 1 else shape)
 
+    def squeeze(self, axis=None):
+        from . import npshim
+        if axis is not None:
+            raise Unsupported('squeeze(axis=...)')
+        return npshim.squeeze(self)
+
     def flatten(self, order='C'):
         from . import npshim
         if order != 'C':
@@ -1603,11 +1725,14 @@ class FrameDict(dict):
 
 
 class SymList:
-    """closure form of a list comprehension over a symbolic-length iterable: item(j) evaluates the element expression at index j"""
+    """closure form of a list comprehension over a symbolic-length iterable: item(j) evaluates the element expression at index j
+    (python builds the list when the comprehension is executed: the element expression is evaluated with arrays read as of that epoch,
+    and the comprehension's free local variables are bound when it is created - see cut.CompRewriter)"""
 
     def __init__(self, n, item):
         self.n = lift(n)
         self.item = item
+        self.T = _now()
 
     def __sym_len__(self):
         return _c_or_s(self.n)
@@ -1621,10 +1746,117 @@ class SymList:
 
     def at(self, j):
         Ctx.closure_depth += 1
+        old = _ASOF[0]
+        _ASOF[0] = self.T
         try:
             return self.item(j)
         finally:
+            _ASOF[0] = old
             Ctx.closure_depth -= 1
+
+
+class SymSet:
+    """A python list that the code only uses as a set of integers (`.append(v)`, `.extend(values)`, `v in lst`), of symbolic size:
+    pred(v) <=> v is in the list.  `in` reaches it through the mechanical rewrite  a in b -> __vc.contains(a, b)."""
+
+    def __init__(self, pred):
+        self._hp = []
+        self.pred = pred
+
+    @property
+    def pred(self):
+        return _version(self._hp)
+
+    @pred.setter
+    def pred(self, f):
+        _install(self._hp, f)
+
+    @staticmethod
+    def fresh(name):
+        f = C().fresh_fun(name, I, B)
+        return SymSet(lambda v: f(v))
+
+    @staticmethod
+    def of(seq):
+        """membership in a native list / SymSet, as a formula"""
+        if isinstance(seq, SymSet):
+            return seq.pred
+        vals = [lift(x) for x in seq]
+        return lambda v: z3.Or(*[v == x for x in vals]) if vals else z3.BoolVal(False)
+
+    def has(self, v):
+        return SBool(self.pred(lift(v)))
+
+    def __havoc__(self, name):
+        return SymSet.fresh(name)
+
+    def __iter__(self):
+        raise Unsupported('iteration over a symbolic set')
+
+    def append(self, v):
+        old, ve = self.pred, lift(v)
+        _EPOCH[0] += 1
+        self.pred = lambda x: z3.Or(old(x), x == ve)
+
+    def extend(self, vals):
+        if isinstance(vals, (list, tuple)):
+            for v in vals:
+                self.append(v)
+            return
+        if not (isinstance(vals, SArr) and vals.ndim == 1 and vals.kind == 'i'):
+            raise Unsupported('symbolic set extended with %r' % type(vals))
+        c = C()
+        old = self.pred
+        NEW = c.fresh_fun('inset', I, B)
+        v = z3.Int('sv%d' % next(_buf_ids))
+        n = vals.shape_e[0]
+        # the rows the values were gathered from, when the index array has a membership predicate (np.where): state the new members
+        # per selected ROW (no rank function needed), using W(P(r)) == r from np.where's contract
+        src = vals
+        idx = None
+        while src is not None:
+            idx = getattr(src, 'row_idx', None)
+            if idx is not None:
+                break
+            src = src.view_of
+        if idx is not None and idx.member is not None and getattr(idx, 'pos', None) is not None:
+            r_ = z3.Int('sr%d' % next(_buf_ids))
+            at_r = z3.substitute(vals.elem(idx.pos(r_)), (idx.elem(idx.pos(r_)), r_))
+            WR = c.fresh_fun('insetrow', I, I)
+            c.assume(z3.ForAll([r_], z3.Implies(idx.member(r_), NEW(at_r)), patterns=[at_r] if _pat_ok_core(at_r, [r_]) else []), feas=False)
+            wr = WR(v)
+            at_w = z3.substitute(vals.elem(idx.pos(wr)), (idx.elem(idx.pos(wr)), wr))
+            c.assume(z3.ForAll([v], z3.Implies(NEW(v), z3.Or(old(v), z3.And(idx.member(wr), at_w == v))), patterns=[NEW(v)]), feas=False)
+        else:
+            q = z3.Int('sq%d' % next(_buf_ids))
+            WQ = c.fresh_fun('insetpos', I, I)
+            tq = vals.elem(q)
+            c.assume(z3.ForAll([q], z3.Implies(z3.And(0 <= q, q < n), NEW(tq)), patterns=[tq] if _pat_ok_core(tq, [q]) else []), feas=False)
+            c.assume(z3.ForAll([v], z3.Implies(NEW(v), z3.Or(old(v), z3.And(0 <= WQ(v), WQ(v) < n, vals.elem(WQ(v)) == v))), patterns=[NEW(v)]), feas=False)
+        ov = old(v)
+        c.assume(z3.ForAll([v], z3.Implies(ov, NEW(v)), patterns=[ov] if _pat_ok_core(ov, [v]) else []), feas=False)
+        _EPOCH[0] += 1
+        self.pred = lambda x: NEW(x)
+
+
+def _pat_ok_core(e, ix):
+    """usable as an E-matching pattern: an application of an uninterpreted function, built only from uninterpreted functions,
+    variables and numerals (no if-then-else, arithmetic, boolean structure, quantifier or lambda), mentioning every bound variable"""
+    if not z3.is_app(e) or z3.is_const(e) or e.decl().kind() != z3.Z3_OP_UNINTERPRETED:
+        return False
+    stack, seen = [e], set()
+    while stack:
+        t = stack.pop()
+        if t.get_id() in seen:
+            continue
+        seen.add(t.get_id())
+        if not z3.is_app(t):
+            return False
+        if not (t.decl().kind() == z3.Z3_OP_UNINTERPRETED or z3.is_int_value(t) or z3.is_rational_value(t)):
+            return False
+        stack.extend(t.children())
+    s = e.sexpr()
+    return all(str(i) in s for i in ix)
 
 
 class SNan:
